@@ -193,6 +193,20 @@ func checkC13(c *Case, st *Stats) *Violation {
 			}
 		}
 		driveHistory(rd, c.Kind, c.K)
+		if c.Pkg == "zlib" && c.K%2 == 0 {
+			// a longer history: a dictionary stream, then a plain one (the Reader swaps inflaters on the way)
+			d0 := []byte("an earlier dictionary, an earlier dictionary")
+			var b0 bytes.Buffer
+			w0, _ := newWriter(WCfg{Pkg: "zlib", Level: 6, Dict: d0}, &b0, true)
+			w0.Write(d0[:20])
+			w0.Close()
+			rd.(resetter).Reset(bytes.NewReader(b0.Bytes()), d0)
+			io.Copy(io.Discard, rd)
+			if c.K%4 == 0 {
+				rd.(resetter).Reset(bytes.NewReader(warmupZlib), nil)
+				io.Copy(io.Discard, rd)
+			}
+		}
 		var src2 io.Reader = bytes.NewReader(c.Stream2)
 		if c.K%3 == 0 {
 			src2 = &chunkSrc{data: c.Stream2, chunks: []int{1 + c.K%7}, failAfter: -1}
